@@ -1,0 +1,100 @@
+//go:build verif
+
+package httpc
+
+import (
+	"context"
+	"encoding/json"
+	"fmt"
+	"net/http"
+	"net/http/httptest"
+	"reflect"
+	"sync"
+	"testing"
+
+	"github.com/gotid/god/api/httpx"
+	"github.com/gotid/god/api/router"
+	"github.com/gotid/god/internal/verifdrv"
+	"github.com/gotid/god/internal/verifdrv/c05shape"
+)
+
+type verifCase struct {
+	RT      bool           `json:"rt"`      // false: not a round-trip case, answered with {}
+	Shape   c05shape.Shape `json:"shape"`   // request struct: fields tagged path / form / header / json
+	Value   any            `json:"value"`   // the request value, canonically rendered (c05shape.Dump format)
+	Method  string         `json:"method"`  // http method
+	Pattern string         `json:"pattern"` // route with :name segments, e.g. /api/:id/items/:name
+}
+
+// TestVerifDriver builds a request from a generated request struct with httpc.buildRequest, sends it with
+// httpc.DoRequest to an httptest server routing through api/router, parses it back with httpx.Parse and reports
+// both the original and the parsed struct.
+func TestVerifDriver(t *testing.T) {
+	var mu sync.Mutex
+	var current http.Handler
+	srv := httptest.NewServer(http.HandlerFunc(func(w http.ResponseWriter, r *http.Request) {
+		mu.Lock()
+		h := current
+		mu.Unlock()
+		h.ServeHTTP(w, r)
+	}))
+	defer srv.Close()
+
+	verifdrv.Run(t, func(raw json.RawMessage) any {
+		var c verifCase
+		if err := json.Unmarshal(raw, &c); err != nil {
+			return map[string]any{"error": err.Error()}
+		}
+		if !c.RT {
+			return map[string]any{}
+		}
+		var typ reflect.Type
+		if panicked, pv := verifdrv.Catch(func() { typ = c.Shape.Build() }); panicked {
+			return map[string]any{"error": "shape: " + pv}
+		}
+		orig := reflect.New(typ)
+		if err := c05shape.Fill(orig.Elem(), c.Value); err != nil {
+			return map[string]any{"error": err.Error()}
+		}
+		out := map[string]any{"orig": c05shape.Dump(orig.Elem()), "handled": false}
+
+		var parsed map[string]any
+		rt := router.NewRouter()
+		err := rt.Handle(c.Method, c.Pattern, http.HandlerFunc(func(w http.ResponseWriter, r *http.Request) {
+			parsed = c05shape.RunInto(typ, func(v any) error { return httpx.Parse(r, v) })
+		}))
+		if err != nil {
+			return map[string]any{"error": "route: " + err.Error()}
+		}
+		mu.Lock()
+		current = rt
+		mu.Unlock()
+
+		var req *http.Request
+		panicked, pv := verifdrv.Catch(func() { req, err = buildRequest(context.Background(), c.Method, srv.URL+c.Pattern, orig.Interface()) })
+		switch {
+		case panicked:
+			out["build"] = map[string]any{"r": "panic", "msg": pv}
+			return out
+		case err != nil:
+			out["build"] = map[string]any{"r": "err", "msg": err.Error()}
+			return out
+		}
+		out["build"] = map[string]any{"r": "ok"}
+		out["url"] = req.URL.String()
+		resp, err := DoRequest(req)
+		if err != nil {
+			out["send"] = err.Error()
+			return out
+		}
+		resp.Body.Close()
+		out["status"] = resp.StatusCode
+		if parsed != nil {
+			out["handled"] = true
+			out["rt"] = parsed
+		} else {
+			out["rt"] = map[string]any{"r": "err", "msg": fmt.Sprintf("not routed: status %d", resp.StatusCode)}
+		}
+		return out
+	})
+}
